@@ -88,6 +88,15 @@ fn main() {
             let v = serde_json::json!({"property": args[2], "stage": args[3], "config": cfgname, "message": "", "rendered": h.render(), "case": h});
             println!("{}", serde_json::to_string_pretty(&v).unwrap());
         }
+        "validate-rules" => {
+            match sev::fprules::validate_all() {
+                Ok(()) => println!("all {} Fp rules valid in the model", sev::fprules::fp_rules().len()),
+                Err(e) => {
+                    println!("{e}");
+                    std::process::exit(2)
+                }
+            }
+        }
         "list" => {
             for p in sev::props::ALL {
                 println!("{p}");
